@@ -1068,7 +1068,7 @@ class Emit:
                         return
                     if n[1] == 0: return
                     if n[1] <= 256:
-                        o.append('  *(struct { uint8_t b[%d]; } *)%s = *(struct { uint8_t b[%d]; } *)%s;' % (n[1], s.val(args[0][0]), n[1], s.val(args[1][0])))
+                        o.append('  *(struct ll_bytes_%d *)%s = *(struct ll_bytes_%d *)%s;' % (n[1], s.val(args[0][0]), n[1], s.val(args[1][0])))
                         return
                 o.append('  %s(%s, %s, %s);' % (fn, s.val(args[0][0]), s.val(args[1][0]), s.val(args[2][0])))
                 return
